@@ -272,7 +272,7 @@ class Repo:
                         for b in ("ge", "gt", "le", "lt"):
                             if b in kw:
                                 f["bounds"][b] = kw[b]
-                        for a in ("alias", "serialization_alias", "validation_alias"):
+                        for a in ("alias", "validation_alias"):
                             if a in kw:
                                 f["alias"] = kw[a]
                     else:
